@@ -345,6 +345,12 @@ def run(ctx: Ctx) -> None:
     cfg_rule(ctx)
     wiring_rule(ctx, "R03.wire", which=("data",), fields=("num_index_bits", "num_block_bits", "associativity", "replacement_strategy"))
     source_rule(ctx)
+    # a reload must not leave a block behind: a stale (dirty) block of the previous program would be answered / written back into
+    # the fresh memory (C12's / C13's reset rule)
+    from ..resetrule import check_reset
+    r = ctx.rule("R03.reset", "reset() rebuilds the data cache and clears the backing memory")
+    check_reset(ctx, r, "Memory", fields={"memory_file": "empty"})
+    check_reset(ctx, r, "BaseCacheMemorySystem", fields={"cache": "reconstruct", "memory": "delegate"})
 
 
 def writeback_rule(ctx: Ctx, r) -> None:
